@@ -40,11 +40,11 @@ pub fn build_spec(property: &str, tier: &str, seed: u64) -> Option<Spec> {
     let thorough = tier == "thorough";
     match property {
         "C07" => {
-            let docs = Arc::new(c07::Docs::build(seed, if thorough { 4000 } else { 150 }, if thorough { 160 } else { 60 }));
+            let docs = Arc::new(c07::Docs::build(seed, if thorough { 6000 } else { 500 }, if thorough { 160 } else { 60 }));
             let phases: Vec<Box<dyn Phase>> = vec![
                 Box::new(c07::CharSweep::new(docs.clone(), if thorough { vec![0, 1, 2, 3, 4] } else { vec![0, 1, 4] })),
                 Box::new(c07::ByteSweep::new(docs.clone())),
-                Box::new(c07::Search { docs, runs: runs(1_000_000, 60_000_000, tier), max_items: 20_000 }),
+                Box::new(c07::Search { docs, runs: runs(8_000_000, 150_000_000, tier), max_items: 20_000 }),
             ];
             Some(Spec {
                 property: "C07", level: "fault_enumeration", phases,
@@ -64,9 +64,9 @@ pub fn build_spec(property: &str, tier: &str, seed: u64) -> Option<Spec> {
         "C03" => {
             let docs = Arc::new(c07::Docs::build(seed, 50, 60));
             let phases: Vec<Box<dyn Phase>> = vec![
-                Box::new(c03::C03Search { docs: docs.clone(), runs: runs(2_000_000, 80_000_000, tier), max_items: 20_000 }),
+                Box::new(c03::C03Search { docs: docs.clone(), runs: runs(10_000_000, 200_000_000, tier), max_items: 20_000 }),
                 Box::new(c03::C03CorpusBytes::new(docs)),
-                Box::new(c03::C03Deep { runs: if thorough { 500 } else { 48 }, thorough }),
+                Box::new(c03::C03Deep { runs: if thorough { 3000 } else { 200 }, thorough }),
             ];
             Some(Spec {
                 property: "C03", level: "fault_enumeration", phases,
@@ -85,7 +85,7 @@ pub fn build_spec(property: &str, tier: &str, seed: u64) -> Option<Spec> {
         }
         "C06" => {
             let phases: Vec<Box<dyn Phase>> = vec![
-                Box::new(c06::C06Search { runs: runs(400_000, 20_000_000, tier), max_len: if thorough { 400 } else { 60 } }),
+                Box::new(c06::C06Search { runs: runs(2_000_000, 60_000_000, tier), max_len: if thorough { 400 } else { 60 } }),
                 Box::new(c06::C06Small { len: if thorough { 4 } else { 3 } }),
             ];
             Some(Spec {
@@ -104,10 +104,10 @@ pub fn build_spec(property: &str, tier: &str, seed: u64) -> Option<Spec> {
             })
         }
         "C14" => {
-            let phases: Vec<Box<dyn Phase>> = vec![Box::new(c14::C14Search { runs: runs(150_000, 8_000_000, tier), max_len: if thorough { 200 } else { 40 } })];
+            let phases: Vec<Box<dyn Phase>> = vec![Box::new(c14::C14Search { runs: runs(600_000, 20_000_000, tier), max_len: if thorough { 200 } else { 40 } })];
             Some(Spec {
                 property: "C14", level: "exploration", phases,
-                rule: "twin-history-search: the C06 workload (seeded histories with cancellation points and simulator-chosen hash behaviour); at 1-3 checkpoints per history the object's own observed entry list is rebuilt by nine other routes (from_vec, pushes, reversed push_front, chunked extend, superset with junk entries removed again under random cancellation, clone, into_iter/collect, null-then-iter_mut, inserts) each under a fresh hash seed and mode, and object, Value::Object and Value::Array wrappers must be ==, compare Equal both ways (cmp and partial_cmp) and hash identically under SipHash and FNV-1a; five near copies (one value / one key changed, entry duplicated, removed, adjacent swapped) must be unequal, not Equal, antisymmetric; a pool of up to 14 snapshots, near copies and plain values is checked pairwise (== iff structurally identical by an independent walk, Equal iff ==, antisymmetry, partial_cmp agrees, equal => same hash) and triple-wise (transitivity). A case is one history with its twin seed; distinct = distinct digest; non-trivial = at least one compared twin had an index dump (bucket count or bucket contents) different from the original's, i.e. the internal state really differed when equality was asked.".into(),
+                rule: "twin-history-search: the C06 workload (seeded histories with cancellation points and simulator-chosen hash behaviour); at 1-3 checkpoints per history the object's own observed entry list is rebuilt by nine other routes (from_vec, pushes, reversed push_front, chunked extend, superset with junk entries removed again under random cancellation, clone, into_iter/collect, null-then-iter_mut, inserts) each under a fresh hash seed and mode, and object, Value::Object and Value::Array wrappers must be ==, compare Equal both ways (cmp and partial_cmp) and hash identically under SipHash and FNV-1a; five near copies (one value / one key changed, entry duplicated, removed, adjacent swapped) must be unequal, not Equal, antisymmetric; a pool of up to 16 snapshots, near copies and plain values is checked pairwise (== iff structurally identical by an independent walk, Equal iff ==, antisymmetry, partial_cmp agrees, equal => same hash) and triple-wise (transitivity). A case is one history with its twin seed; distinct = distinct digest; non-trivial = at least one compared twin had an index dump (bucket count or bucket contents) different from the original's, i.e. the internal state really differed when equality was asked.".into(),
                 assumptions: vec![
                     "ground truth is the object's own observed entry list, never the C06 model; twins whose construction does not reproduce that list are skipped (a C06 matter)".into(),
                     "no particular order is required, only the laws; unequal values may hash alike".into(),
